@@ -49,8 +49,7 @@ D = {
 
 
 # split-relevant tokens only (statement-boundary automaton, C04/C05): long sequences are cheap here
-SPL = [';', 'create', 'begin', 'end', 'declare', 'a', '(', ')', 'if', 'case', 'for', 'go', '\n',
-       '--c\n', '/*c*/', 'end if']
+SPL = [';', 'create', 'begin', 'end', 'declare', 'a', '(', ')', 'if', 'case', 'go', '\n', '--c\n', 'end if']
 
 
 def count(alpha, max_len):
